@@ -600,6 +600,11 @@ func genWorkload(r *rand.Rand, thorough, zeroReads, concurrent bool) Workload {
 	}
 	n := 1 + r.Intn(maxStreams)
 	wl.Concurrent = concurrent && r.Intn(2) == 0
+	if wl.Concurrent {
+		// concurrent opens all reach the backlog before the accept loop runs;
+		// rejections are the subject of the backlog workloads, not of these
+		wl.Backlog = [2]int{max(wl.Backlog[0], n), max(wl.Backlog[1], n)}
+	}
 	if r.Intn(15) == 0 {
 		wl.ExplicitMs = 1 + r.Intn(20)
 	}
